@@ -32,7 +32,7 @@ def hashseeds(ctx):
 
 
 def streams(ctx):
-    return [("bundle", ctx.scale(8, 40))]
+    return [("bundle", ctx.scale(16, 48))]
 
 
 def run_config(ctx, first, count, hs, history):
